@@ -273,7 +273,7 @@ def r4_classes(prog, run, ready, accumulators):
                 for k, a in enumerate(n.get('args', [])):
                     if slot0.nodes[slot0.skip(a)].get('f') in accumulators:
                         for g in prog.callee_fns(slot0, n):
-                            if g.file == slot0.file and g.entry is not None and k < len(g.params):
+                            if (g.file == slot0.file or '/src/' in g.file) and g.entry is not None and k < len(g.params):
                                 scan.append((g, lambda f, o, k=k: f.nodes[f.skip(o)].get('vk') == 'param' and f.nodes[f.skip(o)].get('pidx') == k))
             slot, is_acc = scan[0]
             byte_reads = []
@@ -285,6 +285,20 @@ def r4_classes(prog, run, ready, accumulators):
             if not byte_reads:
                 run.info(rid, slot.loc(), 'no byte-wise boundary computation (stateful decoder or other scheme): rule not applicable')
                 continue
+            # a helper that computes how many bytes to hold back must be able to say 0..3: a bool result that the caller uses as a number collapses 2 and 3 to 1
+            if slot.id != slot0.id and (slot.raw.get('ret') or '').replace('const ', '') == 'bool':
+                for i, n in slot0.calls():
+                    if slot.id in [g.id for g in prog.callee_fns(slot0, n)]:
+                        up = slot0.parents().get(i)
+                        while up is not None and slot0.nodes[up]['k'] in ('icast', 'cast', 'paren'):
+                            up = slot0.parents().get(up)
+                        bo = slot0.binop(up) if up is not None else None
+                        if bo and bo[0] in ('-', '+', '*'):
+                            run.instance(rid)
+                            run.violation(rid, '%s::readyRead-slot#held-back-count-is-bool' % SOCK, slot.loc(),
+                                          '%s computes from the last bytes how much of the buffer is an unfinished character, but returns bool; the caller uses the result as a '
+                                          'number (%s), so two or three pending bytes count as one: a 3- or 4-byte character cut after its second / third byte is decoded '
+                                          'incomplete' % (slot.name, slot0.fmt(up, inline=False)[:60]))
             preds = []
             undecidable = []
 
